@@ -80,9 +80,13 @@ AddContainerAttr ==
          /\ d' = [d EXCEPT !.container = @ \cup {a}]
 AddFieldAttr ==
     /\ d.kind = "struct" /\ Len(d.fields) > 0 /\ nattr < MaxAttrs /\ nattr' = nattr + 1
-    /\ \E j \in DOMAIN d.fields, a \in {"default", "skip_none", "rename"} :
+    /\ \E j \in DOMAIN d.fields, a \in {"default", "skip_none", "rename", "default_fn"} :
          /\ a \notin d.fields[j].attrs
          /\ (a = "skip_none" => d.fields[j].ty \in {"Option<String>", "Option<Inner>"})
+         (* #[serde(default = "path")] with a function that returns a non-trivial value *)
+         /\ (a = "default_fn" => d.fields[j].ty \in {"i64", "String", "Option<String>", "Option<Inner>", "Vec<i64>", "Kind", "Inner"}
+                                  /\ "default" \notin d.fields[j].attrs)
+         /\ (a = "default" => "default_fn" \notin d.fields[j].attrs)
          /\ d' = [d EXCEPT !.fields[j].attrs = @ \cup {a}]
 
 Next == ChooseKind \/ AddField \/ AddVariant \/ AddContainerAttr \/ AddFieldAttr
